@@ -85,14 +85,14 @@ class SignalAnchors:
 
     @cached_property
     def bound_check(self) -> FuncInfo:
-        d = self.method("dispatch")
-        for call, c in self.a.func_calls(d):
-            if c.kind == "func" and c.func.cls is self.Signal and c.func is not d:
-                # raises UnboundSignal
-                for n in walk_own(c.func.node):
-                    if isinstance(n, ast.Raise) and n.exc is not None and "UnboundSignal" in ast.unparse(n.exc):
-                        return c.func
-        raise AnalysisError("anchor-missing bound-ness check called by Signal.dispatch")
+        """The Signal method that raises UnboundSignal."""
+        for m in self.Signal.methods.values():
+            if m.name in ("dispatch",) or m is self.subscribe:
+                continue
+            for n in walk_own(m.node):
+                if isinstance(n, ast.Raise) and n.exc is not None and "UnboundSignal" in ast.unparse(n.exc):
+                    return m
+        raise AnalysisError("anchor-missing bound-ness check (a Signal method raising UnboundSignal)")
 
     def weak_tables(self) -> set:
         """Access-path heads ('bound_signals' or 'self._bound_signals') that are weak-keyed mappings."""
